@@ -372,9 +372,14 @@ def page(draw, rich=True, max_headers=8, shared_keys=False, levels=None, plain_s
     if draw(st.integers(0, 3)) == 0:
         d = draw(st.sampled_from(_LONG))
         title.append(W(d, ("date", d)))
+    bare_title = draw(st.integers(0, 7)) == 0
+    if bare_title:
+        # the page starts with a bare '#': that empty line *is* the title line, so the tags, links and date
+        # of the header lines that follow are those of "later header lines"
+        title = []
     head = []
-    for _ in range(draw(st.sampled_from([0, 0, 1, 2, 3]))):
-        if draw(st.integers(0, 3)) == 0:
+    for _ in range(max(1 if bare_title else 0, draw(st.sampled_from([0, 0, 1, 2, 3])))):
+        if draw(st.integers(0, 3)) == 0 and not (bare_title and not head):
             head.append([])
         else:
             hl = draw(words(names, 1, 4, first_plain=False, keys=keys, scope_line=True))
@@ -432,7 +437,7 @@ def render(pg, today: str):
         out.append(s)
 
     t_tags, t_props, t_date = _scope_of(pg["title"])
-    emit("# " + " ".join(w["s"] for w in pg["title"]))
+    emit("# " + " ".join(w["s"] for w in pg["title"]) if pg["title"] else "#")
     file_props = dict(t_props)
     for hl in pg["head"]:
         emit("#" + ("" if not hl else " " + " ".join(w["s"] for w in hl)))
